@@ -6,6 +6,13 @@ from opt_common import correspond_caf, near_threshold_pair, pool, rand_rgb, thre
 from proto import bitsf, fbits, run_lines
 
 MATCHERS = {}
+
+
+def regen_optimiser():
+    """CmGen/Optimiser.lean: the control logic of optimisation.py as it reads now (the `source_*` theorems of
+    CmProps/C03opt.lean identify it with the model)"""
+    from translate import optimiser
+    optimiser.generate()
 SCAN = 4096
 
 
@@ -56,7 +63,9 @@ def gen_cases(rng, n):
 
 
 def check(run):
-    run.proof = proof_status("C03")
+    run.proof = proof_status("C03", regenerate=regen_optimiser)
+    from translate import optimiser as _opt
+    run.extra["source_translation_optimiser"] = _opt.summary()
     q = run.quick()
     n = 900 if q else 20000
     run.rule = ("pairs 0-20 %% below the minimum of their (large, very_readable) setting, text lighter/darker than dark, "
